@@ -178,14 +178,26 @@ def cached_result_rule(rep, flow, f, deco):
     # private: look at every use of the result
     leaks = []
     n_sites = 0
-    for m in prog.modules.values():
-        for g in m.all_funcs:
-            types = prog.local_types(g)
-            for call, r in prog.call_sites(g):
-                if not (r and r[0] == "func" and r[1] is f):
-                    continue
-                n_sites += 1
-                leaks += _result_uses(g, call)
+    # the shared object is handed on by private wrappers that merely return it: their results are the same object, their
+    # call sites are examined in turn (a PUBLIC function returning it stays a leak)
+    carriers, todo = [], [f]
+    while todo:
+        h = todo.pop()
+        if h in carriers:
+            continue
+        carriers.append(h)
+        for m in prog.modules.values():
+            for g in m.all_funcs:
+                for call, r in prog.call_sites(g):
+                    if not (r and r[0] == "func" and r[1] is h):
+                        continue
+                    n_sites += 1
+                    for (g2, node, why) in _result_uses(g, call):
+                        private = g2.name.startswith("_") and (g2.cls is None or g2.cls.name.startswith("_") or g2.name.startswith("_"))
+                        if why == "is returned" and private and not g2.name.startswith("__"):
+                            todo.append(g2)
+                        else:
+                            leaks.append((g2, node, why))
     if leaks:
         for (g, node, why) in leaks:
             rep.finding("A1", f"{g.fq}:cached-result:{pyfacts.norm_stmt(node)}", f"{pyfacts.where(g, node)}: the memoised result of {f.qualname} (@{deco}) {why} without a copy [{pyfacts.norm_stmt(node)}]: objects built by later calls share it")
